@@ -1058,3 +1058,180 @@ def rule_compound_merge(ctx: Ctx, rule: str = "compound-merge") -> None:
         ctx.ok(rule, fi.key, construct)
     else:
         ctx.violation(rule, fi.key, construct, "stores %s" % st, where=fi.where)
+
+
+def rule_membership_tests(ctx: Ctx, rule: str = "membership-tests") -> None:
+    """C03: the two derived tests of a contract are refinement tests on constraint lists -
+    contains_environment(E) = E <= A   and   contains_implementation(M) = (M | A) <= (G | A)."""
+    prog = ctx.prog
+    UN = {"union"}
+
+    def norm_side(v, me, comp):
+        """a side of the comparison as a frozenset of atoms {'component','a','g'} joined by |, else None"""
+        if v == ("param", comp):
+            return frozenset({"component"})
+        if v == ("attr", ("param", me), "a"):
+            return frozenset({"a"})
+        if v == ("attr", ("param", me), "g"):
+            return frozenset({"g"})
+        if isinstance(v, tuple) and v and v[0] == "bin" and v[1] == "BitOr":
+            l, r = norm_side(v[2], me, comp), norm_side(v[3], me, comp)
+            return None if l is None or r is None else l | r
+        if isinstance(v, tuple) and v and v[0] == "mcall" and v[1] == "copy" and not v[3]:
+            return norm_side(v[2], me, comp)
+        return None
+
+    def relation(v, me, comp):
+        """(left, right) of  left <= right  whichever way it is written"""
+        if isinstance(v, tuple) and v and v[0] == "cmp" and v[1] in ("LtE", "GtE"):
+            l, r = norm_side(v[2], me, comp), norm_side(v[3], me, comp)
+            return (l, r) if v[1] == "LtE" else (r, l)
+        if isinstance(v, tuple) and v and v[0] == "mcall" and v[1] in ("refines", "__le__") and len(v[3]) == 1:
+            return (norm_side(v[2], me, comp), norm_side(v[3][0], me, comp))
+        return None
+
+    _ = UN
+    for name, want, text in (
+        ("contains_environment", (frozenset({"component"}), frozenset({"a"})), "component <= assumptions"),
+        ("contains_implementation", (frozenset({"component", "a"}), frozenset({"g", "a"})), "(component | assumptions) <= (guarantees | assumptions)"),
+    ):
+        fi = prog.func("IoContract." + name)
+        me, comp = fi.params[0], fi.params[1]
+        construct = "%s answers  %s" % (name, text)
+        ps = list(Sim(prog, fi).paths())
+        rets = [p for p in ps if p.terminal == "return"]
+        if not rets or len(rets) != len(ps):
+            ctx.violation(rule, fi.key, construct, "not every path returns an answer (%s)" % [p.terminal for p in ps], where=fi.where)
+            continue
+        bad = None
+        for p in rets:
+            rel = relation(p.value, me, comp)
+            if rel is None or None in rel:
+                bad = ("undecided", "returns %s" % show(p.value, 4)) if not is_const(p.value) else ("violation", "returns the constant %r" % (p.value[1],))
+            elif rel != want:
+                bad = ("violation", "tests %s <= %s" % (" | ".join(sorted(rel[0])), " | ".join(sorted(rel[1]))))
+            elif p.value[0] == "cmp" and p.value[1] not in ("LtE", "GtE"):
+                bad = ("violation", "compares with %s" % p.value[1])
+        if bad is None:
+            ctx.ok(rule, fi.key, construct)
+        elif bad[0] == "violation":
+            ctx.violation(rule, fi.key, construct, bad[1], where=fi.where)
+        else:
+            # a comparison operator the list class does not define is a definite error, anything else is not read here
+            v = rets[0].value
+            if isinstance(v, tuple) and v and v[0] == "cmp" and v[1] in ("Lt", "Gt") and prog.resolve_method("TermList", "__lt__") is None and prog.resolve_method("TermList", "__gt__") is None:
+                ctx.violation(rule, fi.key, construct, "uses `%s`, which constraint lists do not define (TypeError)" % {"Lt": "<", "Gt": ">"}[v[1]], where=fi.where)
+            else:
+                ctx.cannot_decide(rule, fi.key, construct, bad[1])
+
+
+def rule_compound_from_strings(ctx: Ctx, rule: str = "compound-from-strings") -> None:
+    """C17: PolyhedralIoContractCompound.from_strings turns every alternative (a list of constraint strings) into one
+    constraint list holding the terms of all its strings, keeps the alternatives in order, asks for pairwise-disjoint
+    assumption alternatives (force_empty_intersection=True) and not for the guarantees, and wraps the variable names.
+    Decided by the kernel interpreter with the parser and the three constructors stubbed out (what is checked is the
+    wiring, not the parsing)."""
+    from .termalg import DictV, Key, ListV, Raised, Rec, TermAlg, num
+    from .termalg import Undecidable as _Und
+
+    prog = ctx.prog
+    fi = prog.func("PolyhedralIoContractCompound.from_strings")
+    construct = "PolyhedralIoContractCompound.from_strings: one constraint list per alternative, all strings of it, in order"
+    S = lambda s: ("str", s)  # noqa: E731
+    seen: Dict[str, Any] = {}
+
+    def parse_stub(ta, pos, kw):
+        text = pos[0][1] if isinstance(pos[0], tuple) and pos[0][0] == "str" else "?"
+        # two terms per string, as an equality would give
+        return ListV([Rec("PolyhedralTerm", {"variables": DictV({Key(text + "#1"): num(1)}), "constant": num(0)}), Rec("PolyhedralTerm", {"variables": DictV({Key(text + "#2"): num(1)}), "constant": num(0)})])
+
+    def tl_stub(ta, pos, kw):
+        this = pos[0]
+        this.f["terms"] = ListV(list(pos[1].items)) if len(pos) > 1 and isinstance(pos[1], ListV) else ListV([])
+        return NONE_
+
+    def nested_stub(ta, pos, kw):
+        this = pos[0]
+        this.f["nested_termlist"] = pos[1] if len(pos) > 1 else kw.get("nested_termlist")
+        this.f["force"] = pos[2] if len(pos) > 2 else kw.get("force_empty_intersection")
+        return NONE_
+
+    def contract_stub(ta, pos, kw):
+        seen["kw"] = dict(kw)
+        seen["pos"] = pos
+        return NONE_
+
+    from .termalg import NONE as NONE_
+
+    stubs = {"serializer.polyhedral_termlist_from_string": parse_stub}
+    for cname, st in (("PolyhedralTermList", tl_stub), ("NestedPolyhedra", nested_stub), ("PolyhedralIoContractCompound", contract_stub)):
+        init = prog.resolve_method(cname, "__init__")
+        if init is None:
+            ctx.cannot_decide(rule, fi.key, construct, "no constructor found for %s" % cname)
+            return
+        stubs[init.key] = st
+    # NestedPolyhedra and the compound contract may share a constructor with their base: dispatch on the receiver's class
+    by_key: Dict[str, List] = {}
+    for cname, st in (("PolyhedralTermList", tl_stub), ("NestedPolyhedra", nested_stub), ("PolyhedralIoContractCompound", contract_stub)):
+        by_key.setdefault(prog.resolve_method(cname, "__init__").key, []).append((cname, st))
+    for k, lst in by_key.items():
+        def dispatch(ta, pos, kw, lst=lst):
+            this = pos[0]
+            for cname, st in lst:
+                if isinstance(this, Rec) and prog.is_subclass(this.cls, cname):
+                    return st(ta, pos, kw)
+            return lst[0][1](ta, pos, kw)
+        stubs[k] = dispatch
+    ta = TermAlg(prog, stubs=stubs)
+    A = ListV([ListV([S("a1"), S("a2")]), ListV([S("a3")])])
+    G = ListV([ListV([S("g1")]), ListV([S("g2"), S("g3")]), ListV([S("g4")])])
+    try:
+        ta.call(fi, [A, G, ListV([S("i")]), ListV([S("o")])])
+    except Raised as r:
+        ctx.violation(rule, fi.key, construct, "raises %s on well-formed arguments" % r.cls, where=fi.where)
+        return
+    except (AnalysisError, _Und) as ex:
+        ctx.cannot_decide(rule, fi.key, construct, str(ex))
+        return
+    if "kw" not in seen:
+        ctx.violation(rule, fi.key, construct, "no compound contract is constructed", where=fi.where)
+        return
+    kw = seen["kw"]
+    names = ["self", "assumptions", "guarantees", "input_vars", "output_vars"]
+    for i_, v_ in enumerate(seen["pos"]):
+        if i_ < len(names):
+            kw.setdefault(names[i_], v_)
+
+    def shape(nested) -> Optional[List[List[str]]]:
+        if not isinstance(nested, Rec) or "nested_termlist" not in nested.f or not isinstance(nested.f["nested_termlist"], ListV):
+            return None
+        out = []
+        for tl in nested.f["nested_termlist"].items:
+            if not isinstance(tl, Rec) or not isinstance(tl.f.get("terms"), ListV):
+                return None
+            out.append([k.name for t in tl.f["terms"].items for k in t.f["variables"].d])
+        return out
+
+    want_a = [["a1#1", "a1#2", "a2#1", "a2#2"], ["a3#1", "a3#2"]]
+    want_g = [["g1#1", "g1#2"], ["g2#1", "g2#2", "g3#1", "g3#2"], ["g4#1", "g4#2"]]
+    got_a, got_g = shape(kw.get("assumptions")), shape(kw.get("guarantees"))
+    problems = []
+    if got_a != want_a:
+        problems.append("assumption alternatives [[a1, a2], [a3]] become %s" % got_a)
+    if got_g != want_g:
+        problems.append("guarantee alternatives [[g1], [g2, g3], [g4]] become %s" % got_g)
+    fa = kw["assumptions"].f.get("force") if isinstance(kw.get("assumptions"), Rec) else None
+    fg = kw["guarantees"].f.get("force") if isinstance(kw.get("guarantees"), Rec) else None
+    if fa is not True:
+        problems.append("the assumption alternatives are not required to be pairwise disjoint (force_empty_intersection=%r)" % (fa,))
+    if fg is True:
+        problems.append("the guarantee alternatives are required to be pairwise disjoint")
+    for nm, want in (("input_vars", ["i"]), ("output_vars", ["o"])):
+        v = kw.get(nm)
+        got = [x.name if isinstance(x, Key) else x for x in v.items] if isinstance(v, ListV) else None
+        if got != want:
+            problems.append("%s %s become %s" % (nm, want, got))
+    if problems:
+        ctx.violation(rule, fi.key, construct, "; ".join(problems), where=fi.where)
+    else:
+        ctx.ok(rule, fi.key, construct)
